@@ -253,8 +253,8 @@ func (v *VM) exec() {
 		case codeSlice:
 			r, a, b := v.stack[len(v.stack)-3], v.stack[len(v.stack)-2], v.stack[len(v.stack)-1]
 			i, j := a.Int(), b.Int()
-			if j < 0 {
-				j += 1 + r.Len()
+			if b.t == TypeNil { // omitted upper bound
+				j = r.Len()
 			}
 			v.stack = v.stack[:len(v.stack)-2]
 			v.stack[len(v.stack)-1] = r.Slice(i, j)
